@@ -889,6 +889,10 @@ func (g *ExprGen) enumArr(el *Ty, cur *Ty, d int) *Expr {
 func (g *ExprGen) keyRef(el *Ty) *Expr {
 	switch el.K {
 	case 'r':
+		if g.r.P(1, 5) {
+			// a key that also depends on the root document
+			return ref(mkS(KBin, "*", field("id"), mk(KSub, &Expr{K: KRoot}, field(pick(g.r, []string{"n", "m"})))))
+		}
 		return ref(field(pick(g.r, []string{"id", "name", "grp"})))
 	case 'n', 's':
 		return ref(&Expr{K: KCur})
